@@ -252,7 +252,8 @@ func (msg *MessageAuth) FromBytes(src []byte) error {
 		return ErrNotEnoughSourceBytes
 	}
 
-	p, q := 0, l/(MessageChunkBytesMax+2)+1
+	// q is the number of chunks: all of them are full (MessageChunkBytesMax+2 bytes on the wire) except the last one
+	p, q := 0, (l+MessageChunkBytesMax+1)/(MessageChunkBytesMax+2)
 	chunks := make([]*MessageChunk, 0, q)
 	var chunk *MessageChunk
 	for i := 0; i < q; i++ {
